@@ -1,12 +1,740 @@
-//! C13 — stub (not built yet).
+//! C13 — polynomial evaluation, calculus and coefficient access are mutually consistent.
+//!
+//! (1) calculus cases: evaluate / evaluate_derivative / derivative / antiderivative / integrate
+//! against double-double Horner of exact term-wise calculus, and from_slice/get_coefficients
+//! round trips; (2) history monitor: random sequences of set_coefficient / purge_coefficient /
+//! purge_leading / assigning arithmetic, compared after every operation with a reference
+//! coefficient map through get_coefficient(i), get_coefficients() and order().
+
+#[path = "c11/polyref.rs"]
+mod polyref;
+
+use crate::json::J;
+use crate::probe::{guard, Guarded};
 use crate::report::*;
+use crate::rng::{CaseHash, Rng};
+use bacon_sci::polynomial::Polynomial;
+use polyref::*;
+
+// ---- frozen constants; unit_n(x) = (n+1)·eps·sum|c_k||x|^k
+/// |evaluate(x) - p(x)| <= K·unit                                             (observed 0.64)
+const K_EVAL: f64 = 8.0;
+/// derivative values (evaluate_derivative(x).1 and derivative().evaluate(x)) against
+/// sum k c_k x^(k-1): K·(n+1)·eps·sum k|c_k||x|^(k-1)                          (observed 0.55)
+const K_DERIV: f64 = 8.0;
+/// term-wise coefficients of derivative(), antiderivative(C), antiderivative(C).derivative(): K·eps·|exact| (observed 1.00; analysis: three roundings, 1.5)
+const K_TERM: f64 = 8.0;
+/// integrate(a,b) against A(b) - A(a), and additivity: K·(n+2)·eps·sum|A_k|X^k, X = max |end point| (observed 1.00 / 1.00)
+const K_INT: f64 = 8.0;
+/// assigning arithmetic inside histories: K·eps·(magnitude of the operands of that coefficient) (observed 1.41)
+const K_ARITH: f64 = 8.0;
 
 pub fn meta() -> CheckMeta {
-    CheckMeta { id: "C13", level: "exploration", rule: "stub".into(), assumptions: vec![], exhaustive: false, stuck_is_violation: false }
+    CheckMeta {
+        id: "C13",
+        level: "exploration",
+        rule: "calculus cases: G-poly of degree 0..30, real and complex, 4 evaluation points in the disc |x| <= 2 (real axis for f64), integration end points in the same disc; history cases: 5..40 operations out of set_coefficient (absolute power or relative to the current order, ordinary / zero / below-tolerance values), purge_coefficient (below, at, one above and further above the current order), purge_leading, += / -= polynomial (owned and borrowed), *= /= += -= scalar, checked after every operation. Non-trivial: a history that contains a purge at or beyond the current order, or a calculus case of degree >= 5 evaluated at some |x| > 1; distinct = hash of the generated input".into(),
+        assumptions: vec![
+            "reference values: double-double Horner on the exact term-wise coefficients (k·c_k and c_k/(k+1) formed in double-double)".into(),
+            "history monitor: 'pop' and 'set to zero' are indistinguishable (only get_coefficient(i) for all i <= highest power + 2, get_coefficients() and order() consistency are compared); order() itself is only required to be consistent with the readable coefficients".into(),
+            "purge_leading may drop only stored leading coefficients whose real and imaginary parts are both <= tolerance in modulus, and must leave a constant or a leading coefficient that is not strictly inside the tolerance (the method's documented contract; signature history/purge_leading-incomplete)".into(),
+            "after an assigning arithmetic operation has been verified to K_ARITH·eps the reference map is re-synchronised to the library's values, so rounding does not accumulate over a history".into(),
+        ],
+        exhaustive: false,
+        stuck_is_violation: false,
+    }
 }
-pub fn stages(_ctx: &Ctx) -> Vec<Stage> {
-    vec![]
+
+fn zero() -> C64 {
+    C64::new(0.0, 0.0)
 }
-pub fn thresholds(_ctx: &Ctx, _rep: &Report) -> Vec<Threshold> {
-    vec![Threshold { what: "check not built".into(), required: 1.0, observed: 0.0 }]
+fn same(a: C64, b: C64) -> bool {
+    a.re == b.re && a.im == b.im
+}
+
+// ------------------------------------------------------------------ calculus cases
+
+#[derive(Clone)]
+struct Calc {
+    complex: bool,
+    c: Vec<C64>,
+    tol: Option<f64>,
+    from_slice: bool,
+    xs: Vec<C64>,
+    konst: C64,
+    ends: [C64; 3],
+    shape: String,
+}
+impl Calc {
+    fn to_json(&self) -> J {
+        J::obj()
+            .set("field", field_name(self.complex))
+            .set("polynomial", pj(self.complex, &self.c))
+            .set("tolerance", tolj(self.tol))
+            .set("built_with", if self.from_slice { "from_slice (coefficients reversed)" } else { "collect() (ascending)" })
+            .set("points", J::Arr(self.xs.iter().map(|x| cj(*x)).collect()))
+            .set("antiderivative_constant", cj(self.konst))
+            .set("integration_end_points", J::Arr(self.ends.iter().map(|x| cj(*x)).collect()))
+            .set("shape", self.shape.as_str())
+    }
+    fn hash(&self) -> u64 {
+        let mut h = hash_poly(CaseHash::new("c13-calc").u(self.complex as u64), &self.c);
+        for x in self.xs.iter().chain(self.ends.iter()) {
+            h = h.f(x.re).f(x.im);
+        }
+        h.0
+    }
+}
+
+/// Unwrap a guarded call or report the panic and leave the case.
+macro_rules! g {
+    ($rep:expr, $case:expr, $what:expr, $e:expr) => {
+        match guard(|| $e) {
+            Guarded::Ok(v) => v,
+            Guarded::Panic(m, l) => {
+                $rep.violation(&format!("{}/panic", $what), $case, format!("{} panicked: '{}' at {}", $what, m, l));
+                return;
+            }
+            Guarded::Budget => return,
+        }
+    };
+}
+
+fn term_check<N: Sc>(rep: &mut Report, c: &Calc, what: &str, p: &Polynomial<N>, exp: &[C64], exact_first: bool) -> bool {
+    let allow = tol_allow(c.complex, c.tol.unwrap_or(DEFAULT_TOL));
+    let order = p.order();
+    for i in 0..exp.len().max(order + 1) + 2 {
+        let got = p.get_coefficient(i).to_c();
+        let e = exp.get(i).copied().unwrap_or(zero());
+        let err = (got - e).norm();
+        let u = EPS * e.norm();
+        let al = if i > order { allow } else { 0.0 };
+        let k = if exact_first && i == 0 { 0.0 } else { K_TERM };
+        if u > 0.0 {
+            rep.max("termwise_coefficient_err_over_eps|exact|", (err - al).max(0.0) / u);
+        }
+        if !(err <= k * u + al) {
+            rep.violation(&format!("{}/coefficients", what), c.to_json(), format!("{} ({}): coefficient of x^{} is {:e}{:+e}i, exact term-wise value {:e}{:+e}i, difference {:e} > {:e}", what, N::NAME, i, got.re, got.im, e.re, e.im, err, k * u + al));
+            return false;
+        }
+    }
+    true
+}
+
+fn run_calc<N: Sc>(rep: &mut Report, c: &Calc) {
+    let fld = N::NAME;
+    let n = c.c.len() - 1;
+    let n1 = (n + 1) as f64;
+    // ---- build / read back
+    let desc: Vec<N> = c.c.iter().rev().map(|v| N::from_c(*v)).collect();
+    rep.eval();
+    let p: Polynomial<N> = g!(rep, c.to_json(), "from_slice", if c.from_slice { Polynomial::from_slice(&desc) } else { c.c.iter().map(|v| N::from_c(*v)).collect::<Polynomial<N>>() });
+    let back = g!(rep, c.to_json(), "get_coefficients", p.get_coefficients());
+    rep.count("roundtrips", 1);
+    let rt_ok = back.len() == desc.len() && back.iter().zip(&desc).all(|(a, b)| same(a.to_c(), b.to_c()));
+    if !rt_ok {
+        rep.violation("access/roundtrip", c.to_json(), format!("get_coefficients() of the freshly built polynomial ({}) returned {} values {:?}, built from {} values", fld, back.len(), back.iter().map(|v| v.to_c()).collect::<Vec<_>>(), desc.len()));
+        return;
+    }
+    let ord = g!(rep, c.to_json(), "order", p.order());
+    for i in 0..n + 4 {
+        let got = g!(rep, c.to_json(), "get_coefficient", p.get_coefficient(i)).to_c();
+        let e = c.c.get(i).copied().unwrap_or(zero());
+        if !same(got, e) {
+            rep.violation("access/roundtrip", c.to_json(), format!("get_coefficient({}) of the freshly built polynomial ({}) is {:e}{:+e}i, built with {:e}{:+e}i (order() = {})", i, fld, got.re, got.im, e.re, e.im, ord));
+            return;
+        }
+    }
+    let mut p = p;
+    if let Some(t) = c.tol {
+        let _ = p.set_tolerance(t);
+    }
+    // exact term-wise calculus in double-double
+    let cd: Vec<CDd> = c.c.iter().map(|v| CDd::from(*v)).collect();
+    let dcoef: Vec<CDd> = if n == 0 { vec![CDd::zero()] } else { (1..=n).map(|k| cd[k].mul_f(k as f64)).collect() };
+    let dabs: Vec<C64> = dcoef.iter().map(|v| v.val()).collect();
+    let mut acoef: Vec<CDd> = vec![CDd::from(c.konst)];
+    for k in 0..=n {
+        acoef.push(cd[k].div_f((k + 1) as f64));
+    }
+    let aabs: Vec<C64> = acoef.iter().map(|v| v.val()).collect();
+
+    // ---- derivative() and antiderivative(C), coefficient-wise
+    rep.evals(3);
+    let dp = g!(rep, c.to_json(), "derivative", p.derivative());
+    if !term_check(rep, c, "derivative", &dp, &dabs, false) {
+        return;
+    }
+    let kn = N::from_c(c.konst);
+    let ap = g!(rep, c.to_json(), "antiderivative", p.antiderivative(kn));
+    if !term_check(rep, c, "antiderivative", &ap, &aabs, true) {
+        return;
+    }
+    let adp = g!(rep, c.to_json(), "antiderivative-derivative", ap.derivative());
+    if !term_check(rep, c, "antiderivative-derivative", &adp, &c.c, false) {
+        return;
+    }
+    rep.count("termwise_checks", 3);
+
+    // ---- values
+    let mut big = false;
+    for x in &c.xs {
+        let xn = N::from_c(*x);
+        let s = abs_eval(&c.c, *x);
+        let sd = abs_eval(&dabs, *x);
+        let unit = n1 * EPS * s;
+        let unit_d = n1 * EPS * sd;
+        let r = horner_dd(&cd, *x).val();
+        let rd = horner_dd(&dcoef, *x).val();
+        rep.evals(3);
+        let v = g!(rep, c.to_json().set("x", cj(*x)), "evaluate", p.evaluate(xn)).to_c();
+        let (v2, d2) = g!(rep, c.to_json().set("x", cj(*x)), "evaluate_derivative", p.evaluate_derivative(xn));
+        let (v2, d2) = (v2.to_c(), d2.to_c());
+        let d3 = g!(rep, c.to_json().set("x", cj(*x)), "derivative-evaluate", dp.evaluate(xn)).to_c();
+        rep.count("evaluation_points", 1);
+        let chk = |rep: &mut Report, what: &str, sig: &str, got: C64, exact: C64, unit: f64, k: f64, maxname: &str| -> bool {
+            let err = (got - exact).norm();
+            if unit > 0.0 {
+                rep.max(maxname, err / unit);
+            }
+            if !(err <= k * unit) {
+                rep.violation(sig, c.to_json().set("x", cj(*x)), format!("{} at x = {:e}{:+e}i ({}, degree {}): got {:e}{:+e}i, exact {:e}{:+e}i, difference {:e} > {:e} = {}·(n+1)·eps·{:e}", what, x.re, x.im, fld, n, got.re, got.im, exact.re, exact.im, err, k * unit, k, unit / (n1 * EPS)));
+                return false;
+            }
+            true
+        };
+        let ok = chk(rep, "evaluate(x)", "evaluate/value", v, r, unit, K_EVAL, "evaluate_err_over_(n+1)eps.sum|c_k||x|^k")
+            && chk(rep, "evaluate_derivative(x).0", "evaluate_derivative/value", v2, r, unit, K_EVAL, "evaluate_err_over_(n+1)eps.sum|c_k||x|^k")
+            && chk(rep, "evaluate_derivative(x).1", "evaluate_derivative/derivative", d2, rd, unit_d, K_DERIV, "derivative_value_err_over_(n+1)eps.sum.k|c_k||x|^(k-1)")
+            && chk(rep, "derivative().evaluate(x)", "derivative/value", d3, rd, unit_d, K_DERIV, "derivative_value_err_over_(n+1)eps.sum.k|c_k||x|^(k-1)")
+            && chk(rep, "evaluate_derivative(x).1 vs derivative().evaluate(x)", "derivative/two-routes-disagree", d2, d3, 2.0 * unit_d, K_DERIV, "derivative_two_routes_over_2unit");
+        if !ok {
+            return;
+        }
+        if x.norm() > 1.0 && n >= 5 {
+            big = true;
+        }
+    }
+    // ---- definite integrals
+    let [e0, e1, e2] = c.ends;
+    let xmax = e0.norm().max(e1.norm()).max(e2.norm());
+    let mut a0 = aabs.clone();
+    a0[0] = zero();
+    let unit_i = (n + 2) as f64 * EPS * abs_eval(&a0, C64::new(xmax, 0.0));
+    let mut a0d = acoef.clone();
+    a0d[0] = CDd::zero();
+    let aref = |x: C64| horner_dd(&a0d, x);
+    let mut got = [zero(); 3];
+    for (slot, (lo, hi)) in [(e0, e1), (e1, e2), (e0, e2)].iter().enumerate() {
+        rep.eval();
+        let v = g!(rep, c.to_json(), "integrate", p.integrate(N::from_c(*lo), N::from_c(*hi))).to_c();
+        let r = aref(*hi).sub(aref(*lo)).val();
+        let err = (v - r).norm();
+        if unit_i > 0.0 {
+            rep.max("integrate_err_over_(n+2)eps.sum|A_k|X^k", err / unit_i);
+        }
+        rep.count("integrals", 1);
+        if !(err <= K_INT * unit_i) {
+            rep.violation("integrate/value", c.to_json(), format!("integrate({:e}{:+e}i, {:e}{:+e}i) = {:e}{:+e}i but A(b) - A(a) = {:e}{:+e}i ({}, degree {}): difference {:e} > {:e}", lo.re, lo.im, hi.re, hi.im, v.re, v.im, r.re, r.im, fld, n, err, K_INT * unit_i));
+            return;
+        }
+        got[slot] = v;
+    }
+    let add = (got[0] + got[1] - got[2]).norm();
+    if unit_i > 0.0 {
+        rep.max("integrate_additivity_defect_over_unit", add / unit_i);
+    }
+    if !(add <= K_INT * unit_i) {
+        rep.violation("integrate/additivity", c.to_json(), format!("integrate(a,b) + integrate(b,c) - integrate(a,c) = {:e} > {:e} ({}, degree {})", add, K_INT * unit_i, fld, n));
+        return;
+    }
+    if big {
+        rep.nontrivial(c.hash());
+        rep.count(&format!("calculus_nontrivial/{}", fld), 1);
+    }
+    if rep.wants_sample() && n >= 2 && n <= 5 {
+        rep.sample(c.to_json().set("derivative", pj(c.complex, &dabs)).set("integrals(a,b),(b,c),(a,c)", J::Arr(got.iter().map(|v| cj(*v)).collect())));
+    }
+}
+
+fn run_calc_dyn(rep: &mut Report, c: &Calc) {
+    if c.complex {
+        run_calc::<C64>(rep, c)
+    } else {
+        run_calc::<f64>(rep, c)
+    }
+}
+
+fn gen_calc(rng: &mut Rng, complex: bool, deg: usize) -> Calc {
+    let (mut c, shape) = gen_poly(rng, complex, deg);
+    let mut shape = shape.to_string();
+    shape.push_str(decorate(rng, complex, &mut c, DEFAULT_TOL));
+    let xs = (0..4).map(|_| rand_point(rng, complex, 2.0)).collect();
+    let konst = if rng.chance(0.2) { zero() } else { rand_scalar(rng, complex, -3.0, 3.0) };
+    let ends = [rand_point(rng, complex, 2.0), rand_point(rng, complex, 2.0), rand_point(rng, complex, 2.0)];
+    let tol = if rng.chance(0.8) { None } else { Some(*rng.pick(&[1e-6, 1e-12, 0.0])) };
+    Calc { complex, c, tol, from_slice: rng.chance(0.7), xs, konst, ends, shape }
+}
+
+// ------------------------------------------------------------------ history monitor
+
+#[derive(Clone, Debug)]
+enum GenOp {
+    /// set_coefficient(power, value)
+    Set(u32, C64),
+    /// set_coefficient(order + k, value)
+    SetRel(u32, C64),
+    /// purge_coefficient(floor(f·order)), f in [0,1): strictly below the order (or 0)
+    PurgeBelow(f64),
+    /// purge_coefficient(order + k): k = 0 at the degree, k >= 1 beyond it
+    PurgeRel(usize),
+    PurgeLeading,
+    /// += / -= polynomial (ascending coefficients), owned or borrowed right-hand side
+    AddPoly(Vec<C64>, bool),
+    SubPoly(Vec<C64>, bool),
+    MulS(C64),
+    DivS(C64),
+    AddS(C64),
+    SubS(C64),
+}
+
+#[derive(Clone)]
+struct Hist {
+    complex: bool,
+    init: Vec<C64>,
+    /// None: start from Polynomial::new()
+    via_new: bool,
+    tol: Option<f64>,
+    ops: Vec<GenOp>,
+    x: C64,
+}
+impl Hist {
+    fn hash(&self) -> u64 {
+        let mut h = hash_poly(CaseHash::new("c13-hist").u(self.complex as u64), &self.init).u(self.ops.len() as u64);
+        for op in &self.ops {
+            h = h.s(&format!("{:?}", op));
+        }
+        h.0
+    }
+}
+
+fn opname(op: &GenOp) -> &'static str {
+    match op {
+        GenOp::Set(..) | GenOp::SetRel(..) => "set_coefficient",
+        GenOp::PurgeBelow(_) | GenOp::PurgeRel(_) => "purge_coefficient",
+        GenOp::PurgeLeading => "purge_leading",
+        GenOp::AddPoly(..) => "add_assign_polynomial",
+        GenOp::SubPoly(..) => "sub_assign_polynomial",
+        GenOp::MulS(_) => "mul_assign_scalar",
+        GenOp::DivS(_) => "div_assign_scalar",
+        GenOp::AddS(_) => "add_assign_scalar",
+        GenOp::SubS(_) => "sub_assign_scalar",
+    }
+}
+
+fn cfmt(c: C64) -> String {
+    format!("{:e}{:+e}i", c.re, c.im)
+}
+
+fn run_hist<N: Sc>(rep: &mut Report, h: &Hist) {
+    let fld = N::NAME;
+    let tol = h.tol.unwrap_or(DEFAULT_TOL);
+    let mut p: Polynomial<N> = if h.via_new { Polynomial::new() } else { build(&h.init, None, true) };
+    if let Some(t) = h.tol {
+        let _ = p.set_tolerance(t);
+    }
+    let mut refc: Vec<C64> = if h.via_new { vec![zero()] } else { h.init.clone() };
+    // executed operations, written out with the concrete powers, for the violation record
+    let mut log: Vec<J> = vec![];
+    let base = |log: &Vec<J>| -> J {
+        J::obj()
+            .set("field", field_name(h.complex))
+            .set("initial", if h.via_new { J::from("Polynomial::new()") } else { pj(h.complex, &h.init) })
+            .set("built_with", if h.via_new { "Polynomial::new()" } else { "from_slice (coefficients reversed)" })
+            .set("tolerance", tolj(h.tol))
+            .set("operations_executed_in_order", J::Arr(log.clone()))
+    };
+    let mut beyond = false;
+    let mut purges_at = 0;
+    let mut purges_beyond = 0;
+    for (step, op) in h.ops.iter().enumerate() {
+        let name = opname(op);
+        let order = match guard(|| p.order()) {
+            Guarded::Ok(o) => o,
+            Guarded::Panic(m, l) => {
+                rep.violation("history/order-panic", base(&log), format!("order() panicked before step {}: '{}' at {} ({})", step, m, l, fld));
+                return;
+            }
+            Guarded::Budget => return,
+        };
+        // ---- concrete operation, reference update, per-index rounding unit
+        let mut unit: Vec<f64> = vec![];
+        let mut lenient_from: Option<usize> = None; // purge_leading: indices >= this may read 0
+        let grow = |v: &mut Vec<C64>, n: usize| {
+            while v.len() < n {
+                v.push(zero());
+            }
+        };
+        let desc: String;
+        let applied: Guarded<()> = match op {
+            GenOp::Set(pw, v) | GenOp::SetRel(pw, v) => {
+                let power = if matches!(op, GenOp::SetRel(..)) { order as u32 + *pw } else { *pw };
+                desc = format!("set_coefficient({}, {})  [order before: {}]", power, cfmt(*v), order);
+                grow(&mut refc, power as usize + 1);
+                refc[power as usize] = *v;
+                let vn = N::from_c(*v);
+                guard(|| p.set_coefficient(power, vn))
+            }
+            GenOp::PurgeBelow(f) => {
+                let power = ((*f) * order as f64).floor() as usize;
+                desc = format!("purge_coefficient({})  [order before: {}]", power, order);
+                if power == order {
+                    purges_at += 1;
+                    beyond = true;
+                }
+                if power < refc.len() {
+                    refc[power] = zero();
+                }
+                guard(|| p.purge_coefficient(power))
+            }
+            GenOp::PurgeRel(k) => {
+                let power = order + *k;
+                desc = format!("purge_coefficient({})  [order before: {}; {}]", power, order, if *k == 0 { "at the degree" } else { "beyond the degree: must change nothing" });
+                beyond = true;
+                if *k == 0 {
+                    purges_at += 1;
+                    if power < refc.len() {
+                        refc[power] = zero();
+                    }
+                } else {
+                    purges_beyond += 1;
+                    // a power the polynomial does not have: the readable coefficients there are 0
+                    // already, nothing changes
+                }
+                guard(|| p.purge_coefficient(power))
+            }
+            GenOp::PurgeLeading => {
+                desc = format!("purge_leading()  [order before: {}, tolerance {:e}]", order, tol);
+                // the stored leading run within tolerance
+                let mut i = order.min(refc.len().saturating_sub(1));
+                let mut from = order + 1;
+                while i >= 1 && refc[i].re.abs() <= tol && refc[i].im.abs() <= tol {
+                    from = i;
+                    i -= 1;
+                }
+                lenient_from = Some(from);
+                guard(|| p.purge_leading())
+            }
+            GenOp::AddPoly(q, owned) | GenOp::SubPoly(q, owned) => {
+                let sub = matches!(op, GenOp::SubPoly(..));
+                desc = format!("p {}= {}q, q = {:?} (ascending)", if sub { "-" } else { "+" }, if *owned { "" } else { "&" }, q.iter().map(|c| cfmt(*c)).collect::<Vec<_>>());
+                grow(&mut refc, q.len());
+                unit = vec![0.0; refc.len()];
+                for (i, qi) in q.iter().enumerate() {
+                    unit[i] = EPS * (refc[i].norm() + qi.norm());
+                    refc[i] = if sub { refc[i] - *qi } else { refc[i] + *qi };
+                }
+                let qp: Polynomial<N> = build(q, None, false);
+                match (sub, *owned) {
+                    (false, true) => guard(|| p += qp),
+                    (false, false) => guard(|| p += &qp),
+                    (true, true) => guard(|| p -= qp),
+                    (true, false) => guard(|| p -= &qp),
+                }
+            }
+            GenOp::MulS(s) => {
+                desc = format!("p *= {}", cfmt(*s));
+                unit = refc.iter().map(|c| EPS * c.norm() * s.norm()).collect();
+                for c in refc.iter_mut() {
+                    *c = cmul_exact(*c, *s);
+                }
+                let sn = N::from_c(*s);
+                guard(|| p *= sn)
+            }
+            GenOp::DivS(s) => {
+                desc = format!("p /= {}", cfmt(*s));
+                unit = refc.iter().map(|c| 2.0 * EPS * c.norm() / s.norm()).collect();
+                for c in refc.iter_mut() {
+                    *c = cdiv_ref(*c, *s);
+                }
+                let sn = N::from_c(*s);
+                guard(|| p /= sn)
+            }
+            GenOp::AddS(s) | GenOp::SubS(s) => {
+                let sub = matches!(op, GenOp::SubS(..));
+                desc = format!("p {}= {}", if sub { "-" } else { "+" }, cfmt(*s));
+                unit = vec![0.0; refc.len()];
+                unit[0] = EPS * (refc[0].norm() + s.norm());
+                refc[0] = if sub { refc[0] - *s } else { refc[0] + *s };
+                let sn = N::from_c(*s);
+                if sub {
+                    guard(|| p -= sn)
+                } else {
+                    guard(|| p += sn)
+                }
+            }
+        };
+        rep.eval();
+        rep.count(&format!("history_ops/{}", name), 1);
+        log.push(J::from(desc.clone()));
+        if let Guarded::Panic(m, l) = applied {
+            rep.violation(&format!("history/{}-panic", name), base(&log), format!("step {}: {} panicked ({}): '{}' at {}", step, desc, fld, m, l));
+            return;
+        }
+        // ---- read everything back
+        let read = guard(|| {
+            let o = p.order();
+            let cs = p.get_coefficients();
+            let top = refc.len().max(o + 1) + 3;
+            let gs: Vec<N> = (0..top).map(|i| p.get_coefficient(i)).collect();
+            (o, cs, gs)
+        });
+        let (o, cs, gs) = match read {
+            Guarded::Ok(v) => v,
+            Guarded::Panic(m, l) => {
+                rep.violation(&format!("history/{}-panic", name), base(&log), format!("after step {} ({}) reading order()/get_coefficients()/get_coefficient(i) panicked ({}): '{}' at {}", step, desc, fld, m, l));
+                return;
+            }
+            Guarded::Budget => return,
+        };
+        if cs.len() != o + 1 {
+            rep.violation("history/access-inconsistent", base(&log), format!("after step {} ({}): get_coefficients() has {} entries but order() = {} ({})", step, desc, cs.len(), o, fld));
+            return;
+        }
+        for (i, g) in gs.iter().enumerate() {
+            let g = g.to_c();
+            let e = refc.get(i).copied().unwrap_or(zero());
+            // get_coefficients() (descending) agrees with get_coefficient(i); beyond the order reads 0
+            let via_vec = if i <= o { cs[o - i].to_c() } else { zero() };
+            if !same(g, via_vec) {
+                rep.violation("history/access-inconsistent", base(&log), format!("after step {} ({}): get_coefficient({}) = {} but get_coefficients()/order() give {} (order {}) ({})", step, desc, i, cfmt(g), cfmt(via_vec), o, fld));
+                return;
+            }
+            let u = unit.get(i).copied().unwrap_or(0.0);
+            let mut ok = if u > 0.0 { (g - e).norm() <= K_ARITH * u } else { same(g, e) };
+            if u > 0.0 {
+                rep.max("history_arithmetic_err_over_unit", (g - e).norm() / u);
+            }
+            if !ok {
+                if let Some(from) = lenient_from {
+                    // a stored leading coefficient within tolerance may have been dropped
+                    if i >= from && i > o && same(g, zero()) {
+                        ok = true;
+                        rep.count("purge_leading/terms_dropped", 1);
+                    }
+                }
+            }
+            if !ok {
+                let what = match op {
+                    GenOp::PurgeRel(k) if *k >= 1 => "purging a power the polynomial does not have changed a coefficient".to_string(),
+                    GenOp::PurgeBelow(_) | GenOp::PurgeRel(_) | GenOp::Set(..) | GenOp::SetRel(..) => "a power other than the addressed one changed, or the addressed one has the wrong value".to_string(),
+                    GenOp::PurgeLeading => format!("purge_leading changed a coefficient that is not a leading term within tolerance {:e}", tol),
+                    _ => format!("coefficient differs from term-wise arithmetic by more than {}·eps·operands", K_ARITH),
+                };
+                rep.violation(&format!("history/{}", name), base(&log), format!("after step {} ({}): get_coefficient({}) = {}, reference map has {} (order() = {}, {}): {}", step, desc, i, cfmt(g), cfmt(e), o, fld, what));
+                return;
+            }
+        }
+        if lenient_from.is_some() && o >= 1 {
+            // contract of purge_leading ("remove all leading 0 coefficients"): what is left is a
+            // constant or has a leading coefficient that is not inside the tolerance (strictly
+            // inside, so that `<` and `<=` implementations are both accepted)
+            let lead = gs[o].to_c();
+            rep.count("purge_leading/postcondition_checked", 1);
+            if lead.re.abs() < tol && lead.im.abs() < tol {
+                rep.violation("history/purge_leading-incomplete", base(&log), format!("after step {} ({}): order() = {} but the coefficient of x^{} is {}, inside the tolerance {:e} ({})", step, desc, o, o, cfmt(lead), tol, fld));
+                return;
+            }
+        }
+        // re-synchronise (rounding of arithmetic, dropped leading terms)
+        for (i, g) in gs.iter().enumerate() {
+            if i < refc.len() {
+                refc[i] = g.to_c();
+            }
+        }
+    }
+    rep.count("histories", 1);
+    rep.count("history_purges_at_degree", purges_at);
+    rep.count("history_purges_beyond_degree", purges_beyond);
+    // ---- the edited polynomial still evaluates to its coefficient expansion
+    let xn = N::from_c(h.x);
+    rep.eval();
+    match guard(|| p.evaluate(xn)) {
+        Guarded::Ok(v) => {
+            let r = eval_ref(&refc, h.x);
+            let unit = refc.len() as f64 * EPS * abs_eval(&refc, h.x);
+            let err = (v.to_c() - r).norm();
+            if unit > 0.0 {
+                rep.max("evaluate_err_over_(n+1)eps.sum|c_k||x|^k", err / unit);
+            }
+            if !(err <= K_EVAL * unit) {
+                rep.violation("history/evaluate", base(&log).set("x", cj(h.x)), format!("after the history evaluate({}) = {} but the coefficients read back give {} ({}): difference {:e} > {:e}", cfmt(h.x), cfmt(v.to_c()), cfmt(r), fld, err, K_EVAL * unit));
+                return;
+            }
+        }
+        Guarded::Panic(m, l) => {
+            rep.violation("history/evaluate-panic", base(&log), format!("evaluate after the history panicked ({}): '{}' at {}", fld, m, l));
+            return;
+        }
+        Guarded::Budget => return,
+    }
+    if beyond {
+        rep.nontrivial(h.hash());
+        rep.count(&format!("history_nontrivial/{}", fld), 1);
+    }
+    if rep.wants_sample() && h.ops.len() <= 8 && beyond {
+        rep.sample(base(&log).set("final_coefficients", pj(h.complex, &refc)));
+    }
+}
+
+fn run_hist_dyn(rep: &mut Report, h: &Hist) {
+    if h.complex {
+        run_hist::<C64>(rep, h)
+    } else {
+        run_hist::<f64>(rep, h)
+    }
+}
+
+fn gen_value(rng: &mut Rng, complex: bool, tol: f64) -> C64 {
+    match rng.below(10) {
+        0 => zero(),
+        1 => rand_unit(rng, complex) * (tol * *rng.pick(&[0.01, 0.5, 0.999, 1.0])),
+        2 if complex => C64::new(tol * 0.5, rng.log10(-3.0, 3.0)), // small real part, large imaginary part
+        3 if complex => C64::new(rng.log10(-3.0, 3.0), -tol * 0.5),
+        _ => rand_scalar(rng, complex, -3.0, 3.0),
+    }
+}
+
+fn gen_op(rng: &mut Rng, complex: bool, tol: f64) -> GenOp {
+    match rng.below(20) {
+        0..=3 => GenOp::Set(rng.below(16) as u32, gen_value(rng, complex, tol)),
+        4 | 5 => GenOp::SetRel(rng.below(4) as u32, gen_value(rng, complex, tol)),
+        6 | 7 => GenOp::PurgeBelow(rng.f()),
+        8 | 9 => GenOp::PurgeRel(0),
+        10 => GenOp::PurgeRel(1),
+        11 => GenOp::PurgeRel(2 + rng.below(6)),
+        12 | 13 => GenOp::PurgeLeading,
+        14 | 15 => {
+            let n = 1 + rng.below(10);
+            let q: Vec<C64> = (0..n).map(|_| gen_value(rng, complex, tol)).collect();
+            if rng.bool() {
+                GenOp::AddPoly(q, rng.bool())
+            } else {
+                GenOp::SubPoly(q, rng.bool())
+            }
+        }
+        16 => GenOp::MulS(rand_scalar(rng, complex, -1.0, 1.0)),
+        17 => GenOp::DivS(rand_scalar(rng, complex, -1.0, 1.0)),
+        18 => GenOp::AddS(rand_scalar(rng, complex, -3.0, 3.0)),
+        _ => GenOp::SubS(rand_scalar(rng, complex, -3.0, 3.0)),
+    }
+}
+
+fn gen_hist(rng: &mut Rng, complex: bool) -> Hist {
+    let tol = if rng.chance(0.7) { None } else { Some(*rng.pick(&[1e-6, 1e-3, 1e-12])) };
+    let t = tol.unwrap_or(DEFAULT_TOL);
+    let via_new = rng.chance(0.15);
+    let deg = if rng.chance(0.2) { 0 } else { rng.below(13) };
+    let (mut init, _) = gen_poly(rng, complex, deg);
+    decorate(rng, complex, &mut init, t);
+    let n = 5 + rng.below(36);
+    let ops = (0..n).map(|_| gen_op(rng, complex, t)).collect();
+    Hist { complex, init, via_new, tol, ops, x: rand_point(rng, complex, 1.5) }
+}
+
+fn fixed_hists() -> Vec<Hist> {
+    let r = |v: &[f64]| -> Vec<C64> { v.iter().map(|x| C64::new(*x, 0.0)).collect() };
+    let c = |re: f64, im: f64| C64::new(re, im);
+    let mk = |complex: bool, init: Vec<C64>, via_new: bool, ops: Vec<GenOp>| Hist { complex, init, via_new, tol: None, ops, x: C64::new(0.75, 0.0) };
+    let mut v = vec![];
+    for complex in [false, true] {
+        // purge exactly one above the degree (pinned tree: pops the leading term), then further above (pinned: panics)
+        v.push(mk(complex, r(&[3.0, 2.0, 1.0]), false, vec![GenOp::PurgeRel(1)]));
+        v.push(mk(complex, r(&[3.0, 2.0, 1.0]), false, vec![GenOp::PurgeRel(2)]));
+        v.push(mk(complex, r(&[3.0, 2.0, 1.0]), false, vec![GenOp::PurgeRel(7), GenOp::PurgeRel(1), GenOp::PurgeRel(0), GenOp::PurgeRel(1)]));
+        // purge at the degree, repeatedly, down to the constant and on the constant
+        v.push(mk(complex, r(&[3.0, 2.0, 1.0]), false, vec![GenOp::PurgeRel(0), GenOp::PurgeRel(0), GenOp::PurgeRel(0), GenOp::PurgeRel(0), GenOp::PurgeRel(1), GenOp::PurgeLeading]));
+        v.push(mk(complex, r(&[5.0]), false, vec![GenOp::PurgeRel(0), GenOp::PurgeRel(1), GenOp::PurgeRel(3), GenOp::PurgeLeading, GenOp::Set(0, c(2.0, 0.0))]));
+        v.push(mk(complex, vec![], true, vec![GenOp::PurgeLeading, GenOp::PurgeRel(0), GenOp::PurgeRel(1), GenOp::Set(4, c(1.0, 0.0)), GenOp::PurgeBelow(0.5), GenOp::PurgeRel(0), GenOp::PurgeLeading]));
+        // interior purge and set far beyond the degree
+        v.push(mk(complex, r(&[1.0, 2.0, 3.0, 4.0, 5.0]), false, vec![GenOp::PurgeBelow(0.5), GenOp::Set(10, c(127.0, 0.0)), GenOp::PurgeBelow(0.99), GenOp::Set(0, c(0.0, 0.0)), GenOp::PurgeRel(0), GenOp::PurgeLeading]));
+        // leading coefficients inside the tolerance, purge_leading, then arithmetic
+        v.push(mk(complex, r(&[1.0, 2.0, 5e-11, -1e-10, 3e-12]), false, vec![GenOp::PurgeLeading, GenOp::AddPoly(r(&[1.0, 1.0, 1.0, 1.0, 1.0, 1.0]), true), GenOp::SubPoly(r(&[0.0, 0.0, 0.0, 0.0, 0.0, 1.0]), false), GenOp::PurgeLeading, GenOp::MulS(c(-2.0, 0.0)), GenOp::DivS(c(4.0, 0.0)), GenOp::AddS(c(1.0, 0.0)), GenOp::SubS(c(0.5, 0.0))]));
+    }
+    // complex: small real part with large imaginary part must survive purge_leading
+    v.push(mk(true, vec![c(1.0, 0.0), c(2.0, 1.0), c(1e-12, 3.0)], false, vec![GenOp::PurgeLeading, GenOp::Set(3, c(4.0, -1e-12)), GenOp::PurgeLeading, GenOp::Set(4, c(1e-11, 1e-11)), GenOp::PurgeLeading]));
+    v
+}
+
+// ------------------------------------------------------------------ stages
+
+pub fn stages(ctx: &Ctx) -> Vec<Stage> {
+    let seed = ctx.seed;
+    let tier = ctx.tier;
+    let mut st = vec![];
+    let fixed = fixed_hists();
+    let nf = fixed.len() as u64;
+    st.push(Stage::new("history-anchors", nf + 200, move |i, rep| {
+        if i < nf {
+            run_hist_dyn(rep, &fixed[i as usize]);
+            return;
+        }
+        let mut rng = Rng::for_case(0xC13, "c13-history-anchor", i);
+        let h = gen_hist(&mut rng, i % 2 == 1);
+        run_hist_dyn(rep, &h);
+    }));
+    // calculus anchors: every degree 0..30 in both fields, fixed seed; plus the empty slice
+    st.push(Stage::new("calculus-anchors", 2 * 31 * 3 + 2, move |i, rep| {
+        if i >= 2 * 31 * 3 {
+            // from_slice(&[]) is the zero polynomial
+            rep.eval();
+            let ok = if i % 2 == 0 {
+                let p: Polynomial<f64> = Polynomial::from_slice(&[]);
+                p.order() == 0 && p.get_coefficients() == vec![0.0] && p.get_coefficient(0) == 0.0 && p.evaluate(1.5) == 0.0
+            } else {
+                let p: Polynomial<C64> = Polynomial::from_slice(&[]);
+                p.order() == 0 && p.get_coefficients() == vec![zero()] && p.get_coefficient(0) == zero() && p.evaluate(C64::new(1.5, 1.0)) == zero()
+            };
+            if !ok {
+                rep.violation("access/roundtrip", J::obj().set("call", "Polynomial::from_slice(&[])"), "from_slice(&[]) is not the zero polynomial with one zero coefficient".into());
+            }
+            return;
+        }
+        let complex = i % 2 == 1;
+        let deg = ((i / 2) % 31) as usize;
+        let mut rng = Rng::for_case(0xC13, "c13-calc-anchor", i);
+        let c = gen_calc(&mut rng, complex, deg);
+        run_calc_dyn(rep, &c);
+    }));
+    st.push(Stage::new("calculus", tier.pick(5_000, 200_000), move |i, rep| {
+        let mut rng = Rng::for_case(seed, "c13-calc", i);
+        let deg = if rng.chance(0.15) { rng.below(3) } else { rng.below(31) };
+        let c = gen_calc(&mut rng, i % 2 == 1, deg);
+        run_calc_dyn(rep, &c);
+    }));
+    st.push(Stage::new("history", tier.pick(4_000, 150_000), move |i, rep| {
+        let mut rng = Rng::for_case(seed, "c13-history", i);
+        let h = gen_hist(&mut rng, i % 2 == 1);
+        run_hist_dyn(rep, &h);
+    }));
+    st
+}
+
+pub fn thresholds(ctx: &Ctx, rep: &Report) -> Vec<Threshold> {
+    let mut t = vec![];
+    let q = |a: f64, b: f64| ctx.tier.pick(a, b);
+    for fld in ["f64", "c64"] {
+        t.push(Threshold { what: format!("calculus cases of degree >= 5 with an evaluation point |x| > 1 that passed every check ({})", fld), required: q(800.0, 30_000.0), observed: rep.counter(&format!("calculus_nontrivial/{}", fld)) as f64 });
+        t.push(Threshold { what: format!("completed histories containing a purge at or beyond the degree ({})", fld), required: q(1_200.0, 45_000.0), observed: rep.counter(&format!("history_nontrivial/{}", fld)) as f64 });
+    }
+    t.push(Threshold { what: "evaluation points".into(), required: q(15_000.0, 600_000.0), observed: rep.counter("evaluation_points") as f64 });
+    t.push(Threshold { what: "definite integrals".into(), required: q(10_000.0, 450_000.0), observed: rep.counter("integrals") as f64 });
+    t.push(Threshold { what: "from_slice / get_coefficients round trips".into(), required: q(4_000.0, 150_000.0), observed: rep.counter("roundtrips") as f64 });
+    t.push(Threshold { what: "purge_coefficient calls at the degree inside completed histories".into(), required: q(4_000.0, 150_000.0), observed: rep.counter("history_purges_at_degree") as f64 });
+    t.push(Threshold { what: "purge_coefficient calls beyond the degree inside completed histories".into(), required: q(4_000.0, 150_000.0), observed: rep.counter("history_purges_beyond_degree") as f64 });
+    for op in ["set_coefficient", "purge_coefficient", "purge_leading", "add_assign_polynomial", "sub_assign_polynomial", "mul_assign_scalar", "div_assign_scalar", "add_assign_scalar", "sub_assign_scalar"] {
+        t.push(Threshold { what: format!("history operations of kind {}", op), required: q(1_500.0, 60_000.0), observed: rep.counter(&format!("history_ops/{}", op)) as f64 });
+    }
+    t.push(Threshold { what: "leading terms within tolerance seen to be dropped by purge_leading".into(), required: q(200.0, 8_000.0), observed: rep.counter("purge_leading/terms_dropped") as f64 });
+    t
 }
